@@ -1257,9 +1257,11 @@ def info(prop):
     from . import d12_offsets_vc as D
     d = _info_bounded(prop)
     h = D.deductive_info()
-    d["functions"] = h["functions"][:2] + d.get("functions", [])
-    d["stubs"] = h["stubs"] + d.get("stubs", [])
-    d["assumptions"] = h["assumptions"] + d.get("assumptions", [])
+    from . import d12_parse_vc as P
+    hp = P.parse_info()
+    d["functions"] = h["functions"][:2] + hp["functions"] + d.get("functions", [])
+    d["stubs"] = h["stubs"] + hp["stubs"] + d.get("stubs", [])
+    d["assumptions"] = h["assumptions"] + hp["assumptions"] + d.get("assumptions", [])
     d["explanation"] = h["explanation"] + d.get("explanation", "")
     d["trusted_base"] = ["z3 5.1", "vf/pyvc.py + vf/seq.py"] + d.get("trusted_base", [])
     return d
@@ -1267,7 +1269,8 @@ def info(prop):
 
 def tasks(prop, tier, seed):
     from . import d12_offsets_vc as D
-    return list(D.deductive_tasks(prop, tier, seed)) + list(_tasks_bounded(prop, tier, seed))
+    from . import d12_parse_vc as P
+    return list(D.deductive_tasks(prop, tier, seed)) + list(P.parse_tasks(prop, tier, seed)) + list(_tasks_bounded(prop, tier, seed))
 
 
 def replay(prop, cex):
